@@ -16,11 +16,140 @@ Proof. intro s. split; lia. Qed.
 Lemma sle_trans f g h : sle f g -> sle g h -> sle f h.
 Proof. intros A B s. destruct (A s), (B s). split; lia. Qed.
 
+(* ------------------------------------------------------------------------------------------
+   The searcher's block list: de-duplication by (segment key, block number), for ANY batching of
+   the list and ANY grouping of the accepted blocks. *)
+Lemma blk_eqb_eq x y : blk_eqb x y = true <-> x = y.
+Proof.
+  destruct x as [a b], y as [c d]. unfold blk_eqb. cbn [fst snd].
+  rewrite Bool.andb_true_iff, !Nat.eqb_eq. split; [intros [-> ->]; reflexivity|intros H; inversion H; auto].
+Qed.
+
+Lemma blk_eqb_refl x : blk_eqb x x = true.
+Proof. apply blk_eqb_eq. reflexivity. Qed.
+
+Lemma bmem_In x l : bmem x l = true <-> In x l.
+Proof.
+  induction l as [|y l IH]; cbn; [split; [discriminate|tauto]|].
+  rewrite Bool.orb_true_iff, blk_eqb_eq, IH. split; intros [H|H]; auto.
+Qed.
+
+Lemma bmem_app x l1 l2 : bmem x (l1 ++ l2) = (bmem x l1 || bmem x l2)%bool.
+Proof. induction l1 as [|y l1 IH]; cbn; [reflexivity|]. rewrite IH, Bool.orb_assoc. reflexivity. Qed.
+
+Lemma bmem_ext x l1 l2 : (forall z, In z l1 <-> In z l2) -> bmem x l1 = bmem x l2.
+Proof.
+  intros H. destruct (bmem x l1) eqn:E1, (bmem x l2) eqn:E2; try reflexivity; exfalso.
+  - apply bmem_In, H, bmem_In in E1. congruence.
+  - apply bmem_In, H, bmem_In in E2. congruence.
+Qed.
+
+Lemma cp_cons x y l : count_pair x (y :: l) = (if blk_eqb x y then 1 else 0) + count_pair x l.
+Proof. reflexivity. Qed.
+
+Lemma cp_app x l1 l2 : count_pair x (l1 ++ l2) = count_pair x l1 + count_pair x l2.
+Proof. induction l1 as [|y l1 IH]; cbn [app count_pair]; [reflexivity|]. rewrite IH. lia. Qed.
+
+Lemma bmem_count x l : bmem x l = negb (Nat.eqb (count_pair x l) 0).
+Proof.
+  induction l as [|y l IH]; [reflexivity|]. rewrite cp_cons. cbn [bmem]. rewrite IH.
+  destruct (blk_eqb x y); cbn; [reflexivity|]. reflexivity.
+Qed.
+
+(* getFilteredBlocks, marking inside the loop: afterwards processedBlocks holds what it held plus the
+   batch, and every block of the batch that was not processed before is accepted exactly once *)
+Lemma fb_mark_spec : forall batch proc p out, fb_mark proc batch = (p, out) ->
+  (forall x, bmem x p = (bmem x proc || bmem x batch)%bool) /\
+  (forall x, count_pair x out = if bmem x proc then 0 else if bmem x batch then 1 else 0).
+Proof.
+  induction batch as [|b r IH]; intros proc p out H; cbn [fb_mark] in H.
+  - inversion H; subst. split; intro x; [rewrite Bool.orb_false_r; reflexivity|destruct (bmem x p); reflexivity].
+  - destruct (bmem b proc) eqn:Eb.
+    + destruct (IH _ _ _ H) as [A B]. split; intro x; cbn [bmem].
+      * rewrite A. destruct (blk_eqb x b) eqn:E; [|reflexivity].
+        apply blk_eqb_eq in E; subst x. rewrite Eb. reflexivity.
+      * rewrite B. destruct (blk_eqb x b) eqn:E; [|reflexivity].
+        apply blk_eqb_eq in E; subst x. rewrite Eb. reflexivity.
+    + destruct (fb_mark (b :: proc) r) as [p' out'] eqn:F. inversion H; subst p out.
+      destruct (IH _ _ _ F) as [A B]. split; intro x.
+      * rewrite A. cbn [bmem]. destruct (blk_eqb x b), (bmem x proc), (bmem x r); reflexivity.
+      * rewrite cp_cons, B. cbn [bmem]. destruct (blk_eqb x b) eqn:E.
+        -- apply blk_eqb_eq in E; subst x. rewrite Eb. cbn. reflexivity.
+        -- cbn. destruct (bmem x proc); reflexivity.
+Qed.
+
+Lemma searcher_filter_count : forall batches proc x,
+  count_pair x (searcher_filter true proc batches) =
+  if bmem x proc then 0 else if bmem x (concat batches) then 1 else 0.
+Proof.
+  induction batches as [|b r IH]; intros proc x; cbn [searcher_filter concat filter_batch].
+  - destruct (bmem x proc); reflexivity.
+  - destruct (fb_mark proc b) as [p out] eqn:F. destruct (fb_mark_spec _ _ _ _ F) as [A B].
+    rewrite cp_app, B, IH, A, bmem_app.
+    destruct (bmem x proc), (bmem x b), (bmem x (concat r)); reflexivity.
+Qed.
+
+Lemma count_bdedup x l : count_pair x (bdedup l) = Nat.min 1 (count_pair x l).
+Proof.
+  induction l as [|y l IH]; [reflexivity|]. cbn [bdedup]. rewrite cp_cons.
+  destruct (bmem y l) eqn:M.
+  - rewrite IH. destruct (blk_eqb x y) eqn:E; [|reflexivity].
+    apply blk_eqb_eq in E; subst y. rewrite bmem_count in M.
+    destruct (count_pair x l); [discriminate|]. cbn. reflexivity.
+  - rewrite cp_cons, IH. destruct (blk_eqb x y) eqn:E; [|reflexivity].
+    apply blk_eqb_eq in E; subst y. rewrite bmem_count in M.
+    destruct (count_pair x l); [reflexivity|discriminate].
+Qed.
+
+Lemma count_flat_bdedup x : forall cs, count_pair x (concat cs) <= 1 ->
+  count_pair x (flat_map bdedup cs) = count_pair x (concat cs).
+Proof.
+  induction cs as [|c cs IH]; intros H; cbn [flat_map concat] in *; [reflexivity|].
+  rewrite cp_app in H. rewrite !cp_app, count_bdedup, IH by lia. lia.
+Qed.
+
+(* THE DE-DUPLICATION THEOREM: whatever the batches are (blocks may come twice in one batch, in
+   different batches, be submitted again), and however the accepted blocks are re-ordered and
+   grouped, the answer holds a block exactly once iff the block is in the raw list *)
+Theorem searcher_answer_count (batching grouping : list blk -> list (list blk)) :
+  (forall l x, In x (concat (batching l)) <-> In x l) ->
+  (forall l x, count_pair x (concat (grouping l)) = count_pair x l) ->
+  forall raw x, count_pair x (searcher_answer true batching grouping raw) = if bmem x raw then 1 else 0.
+Proof.
+  intros Hb Hg raw x. unfold searcher_answer.
+  assert (C : count_pair x (searcher_filter true [] (batching raw)) = if bmem x raw then 1 else 0).
+  { rewrite searcher_filter_count. cbn [bmem]. rewrite (bmem_ext x _ raw); [reflexivity|]. intro z. apply Hb. }
+  rewrite count_flat_bdedup; rewrite Hg, C; [reflexivity|]. destruct (bmem x raw); lia.
+Qed.
+
+Lemma one_batch_covers : forall l x, In x (concat (one_batch l)) <-> In x l.
+Proof. intros l x. unfold one_batch. cbn [concat]. rewrite app_nil_r. tauto. Qed.
+
+Lemma chunks_fuel_concat : forall fuel P l, 1 <= P -> length l <= fuel -> concat (chunks_fuel fuel P l) = l.
+Proof.
+  induction fuel as [|k IH]; intros P l HP Hl.
+  - destruct l; cbn in *; [reflexivity|lia].
+  - destruct l as [|a l']; [reflexivity|]. cbn [chunks_fuel concat].
+    rewrite IH; [apply firstn_skipn|exact HP|].
+    rewrite skipn_length. cbn [length] in *. lia.
+Qed.
+
+Lemma chunks_concat P l : concat (chunks P l) = l.
+Proof. unfold chunks. apply chunks_fuel_concat; lia. Qed.
+
+Lemma chunks_keeps P : forall l x, count_pair x (concat (chunks P l)) = count_pair x l.
+Proof. intros l x. rewrite chunks_concat. reflexivity. Qed.
+
 Section Proofs.
   Variable nseg : nat.
-  Variable is_stats : nat -> bool.
-  Notation step := (step nseg true is_stats).
-  Notation run := (run nseg true is_stats).
+  Variable batching grouping : list blk -> list (list blk).
+  (* every block of the raw list reaches getBlocks in at least one batch, and nothing else does *)
+  Hypothesis batching_covers : forall l x, In x (concat (batching l)) <-> In x l.
+  (* the groups are the accepted blocks, re-ordered at will *)
+  Hypothesis grouping_keeps : forall l x, count_pair x (concat (grouping l)) = count_pair x l.
+  Variable kind_of : nat -> qkind.
+  Notation step := (step nseg true true batching grouping kind_of).
+  Notation run := (run nseg true true batching grouping kind_of).
 
   Lemma upds_same f s x : upds f s x s = x.
   Proof. unfold upds. now rewrite Nat.eqb_refl. Qed.
@@ -61,7 +190,7 @@ Section Proofs.
 
   Definition snapU (f : nat -> seg) := filter (fun s => in_unrot (f s)) (seq 0 nseg).
   Definition snapR (f : nat -> seg) := filter (fun s => in_rot (f s)) (seq 0 nseg).
-  Definition resolve (r : nat) := if is_stats r then resolve_stats true else resolve_records.
+  Definition resolve (r : nat) := resolve_kind true true batching grouping (kind_of r).
 
   (* a finished reader never changes again *)
   Lemma done_stays evs : forall y r, stage (rds y r) = RDone -> rds (run y evs) r = rds y r.
@@ -95,7 +224,7 @@ Section Proofs.
           set (y' := step y (Resolve r)) in *.
           assert (Hst : stage (rds y' r) = RDone /\ result (rds y' r) = resolve r (segs y) U Rr /\ segs y' = segs y).
           { unfold y'. cbn [Handover.step]. rewrite Hs. cbn [rds segs]. rewrite updr_same. cbn [stage result].
-            rewrite HU, HR. unfold resolve. destruct (is_stats r); auto. }
+            rewrite HU, HR. unfold resolve. auto. }
           destruct Hst as (Hd' & Hres & Hsegs).
           exists (segs y). split; [exact Hle|]. split.
           { rewrite <- Hsegs. apply run_mono. }
@@ -111,7 +240,8 @@ Section Proofs.
   Lemma after_snapU evs : forall y r U f0,
     stage (rds y r) = RSnapU -> snap_u (rds y r) = U -> sle f0 (segs y) ->
     stage (rds (run y evs) r) = RDone ->
-    exists f2 f3, sle f0 f2 /\ sle f2 f3 /\ result (rds (run y evs) r) = resolve r f3 U (snapR f2).
+    exists f2 f3, sle f0 f2 /\ sle f2 f3 /\ sle f3 (segs (run y evs)) /\
+                  result (rds (run y evs) r) = resolve r f3 U (snapR f2).
   Proof.
     induction evs as [|e evs IH]; intros y r U f0 Hs HU Hle Hd.
     - cbn in Hd. congruence.
@@ -132,7 +262,7 @@ Section Proofs.
         * assert (E : step y (Resolve r) = y) by (cbn [Handover.step]; rewrite Hs; reflexivity).
           rewrite E in *. eapply IH; eauto.
       + pose proof (step_rd_other y e r T) as E.
-        destruct (IH (step y e) r U f0) as (f2 & f3 & A & B & C); try (rewrite E; assumption).
+        destruct (IH (step y e) r U f0) as (f2 & f3 & A & B & B' & C); try (rewrite E; assumption).
         { eapply sle_trans; [exact Hle|apply step_mono]. }
         { exact Hd. }
         exists f2, f3. auto.
@@ -169,7 +299,7 @@ Section Proofs.
   Qed.
 
   Lemma count_app x l1 l2 : count_pair x (l1 ++ l2) = count_pair x l1 + count_pair x l2.
-  Proof. induction l1 as [|y l1 IH]; cbn [app count_pair]; [reflexivity|]. rewrite IH. lia. Qed.
+  Proof. apply cp_app. Qed.
 
   Lemma count_flat f s b L : NoDup L ->
     count_pair (s, b) (flat_map (blocks_of f) L) = if mem s L && Nat.ltb b (nb (f s)) then 1 else 0.
@@ -210,13 +340,16 @@ Section Proofs.
       apply mem_In in H. congruence.
   Qed.
 
-  Lemma mem_filter_not s L U : mem s (filter (fun t => negb (mem t U)) L) = (mem s L && negb (mem s U))%bool.
+  Lemma mem_filter_gen (p : nat -> bool) s L : mem s (filter p L) = (mem s L && p s)%bool.
   Proof.
     induction L as [|x L IH]; cbn [filter mem]; [reflexivity|].
-    destruct (mem x U) eqn:E; cbn [negb].
-    - rewrite IH. destruct (Nat.eqb_spec x s) as [->|]; cbn [orb]; [rewrite E; cbn; destruct (mem s L); reflexivity|reflexivity].
+    destruct (p x) eqn:E.
     - cbn [mem]. rewrite IH. destruct (Nat.eqb_spec x s) as [->|]; cbn [orb]; [rewrite E; reflexivity|reflexivity].
+    - rewrite IH. destruct (Nat.eqb_spec x s) as [->|]; cbn [orb]; [rewrite E; cbn; destruct (mem s L); reflexivity|reflexivity].
   Qed.
+
+  Lemma mem_filter_not s L U : mem s (filter (fun t => negb (mem t U)) L) = (mem s L && negb (mem s U))%bool.
+  Proof. apply (mem_filter_gen (fun t => negb (mem t U))). Qed.
 
   Lemma mem_snapR f s : mem s (snapR f) = (Nat.ltb s nseg && in_rot (f s))%bool.
   Proof.
@@ -229,15 +362,38 @@ Section Proofs.
       apply mem_In in H. congruence.
   Qed.
 
-  Lemma resolve_same r f U Rr : resolve r f U Rr = resolve_records f U Rr.
-  Proof. unfold resolve, resolve_stats, resolve_records. destruct (is_stats r); reflexivity. Qed.
+  Lemma bmem_flat f s b L : NoDup L ->
+    bmem (s, b) (flat_map (blocks_of f) L) = (mem s L && Nat.ltb b (nb (f s)))%bool.
+  Proof.
+    intros H. rewrite bmem_count, count_flat by exact H.
+    destruct (mem s L && Nat.ltb b (nb (f s)))%bool; reflexivity.
+  Qed.
+
+  (* THE SEARCHER REFINES ITS SPECIFICATION: with snapshots that list a segment at most once each, the
+     record route (any batching, any grouping) and the statistics route return every block as often as
+     "read every unrotated request, and every rotated request whose key is not an unrotated one" *)
+  Lemma count_resolve_spec r f U Rr x : kind_of r <> QGroupBy -> NoDup U -> NoDup Rr ->
+    count_pair x (resolve r f U Rr) = count_pair x (resolve_records_spec f U Rr).
+  Proof.
+    intros Hk HU HR. unfold resolve, resolve_kind. destruct (kind_of r); [|reflexivity|congruence].
+    unfold resolve_records. rewrite (searcher_answer_count _ _ batching_covers grouping_keeps).
+    destruct x as [s b]. unfold raw_blocks, resolve_records_spec.
+    rewrite bmem_app, count_app, !bmem_flat, !count_flat, mem_filter_not by (try apply NoDup_filter; assumption).
+    destruct (mem s U), (mem s Rr), (Nat.ltb b (nb (f s))); reflexivity.
+  Qed.
+
+  Lemma NoDup_snapU f : NoDup (snapU f).
+  Proof. apply NoDup_filter, seq_NoDup. Qed.
+  Lemma NoDup_snapR f : NoDup (snapR f).
+  Proof. apply NoDup_filter, seq_NoDup. Qed.
 
   (* the counting core: snapshots taken at f1 <= f2, read at f3 >= f2 *)
-  Lemma count_resolve r f1 f2 f3 s b :
+  Lemma count_resolve r f1 f2 f3 s b : kind_of r <> QGroupBy ->
     sle f1 f2 -> sle f2 f3 -> s < nseg -> ph (f1 s) <> Absent -> b < nb (f1 s) ->
     count_pair (s, b) (resolve r f3 (snapU f1) (snapR f2)) = 1.
   Proof.
-    intros L12 L23 Hs Hph Hb. rewrite resolve_same. unfold resolve_records.
+    intros Hk L12 L23 Hs Hph Hb. rewrite count_resolve_spec by (auto using NoDup_snapU, NoDup_snapR).
+    unfold resolve_records_spec.
     rewrite count_app.
     rewrite !count_flat by (try apply NoDup_filter; unfold snapU, snapR; try apply NoDup_filter; apply seq_NoDup).
     rewrite mem_filter_not, mem_snapU, mem_snapR.
@@ -253,8 +409,14 @@ Section Proofs.
       destruct (ph (f2 s)) eqn:P2; cbn in R12; try lia. reflexivity.
   Qed.
 
+  Lemma first_step y1 r : stage (rds y1 r) = RIdle ->
+    let y' := step y1 (SnapU r) in
+    stage (rds y' r) = RSnapU /\ snap_u (rds y' r) = snapU (segs y1) /\ segs y' = segs y1.
+  Proof. intros Hidle. cbn [Handover.step]. rewrite Hidle. cbn [rds segs]. rewrite updr_same. cbn. auto. Qed.
+
   (* MAIN THEOREM *)
   Theorem handover_exactly_once pre post r s b :
+    kind_of r <> QGroupBy ->
     let y1 := run sys_init pre in
     stage (rds y1 r) = RIdle ->
     s < nseg -> ph (segs y1 s) <> Absent -> b < nb (segs y1 s) ->
@@ -262,14 +424,12 @@ Section Proofs.
     stage (rds y r) = RDone ->
     count_pair (s, b) (result (rds y r)) = 1.
   Proof.
-    cbv zeta. intros Hidle Hs Hph Hb Hd.
+    cbv zeta. intros Hk Hidle Hs Hph Hb Hd.
     set (y1 := run sys_init pre) in *.
     unfold Handover.run in Hd |- *. cbn [fold_left] in Hd |- *. fold (run (step y1 (SnapU r)) post) in Hd |- *.
+    destruct (first_step y1 r Hidle) as (S1 & S2 & S3).
     set (y' := step y1 (SnapU r)) in *.
-    assert (Hst : stage (rds y' r) = RSnapU /\ snap_u (rds y' r) = snapU (segs y1) /\ segs y' = segs y1).
-    { unfold y'. cbn [Handover.step]. rewrite Hidle. cbn [rds segs]. rewrite updr_same. cbn. auto. }
-    destruct Hst as (S1 & S2 & S3).
-    destruct (after_snapU post y' r (snapU (segs y1)) (segs y1) S1 S2) as (f2 & f3 & A & B & C).
+    destruct (after_snapU post y' r (snapU (segs y1)) (segs y1) S1 S2) as (f2 & f3 & A & B & B' & C).
     { rewrite S3. apply sle_refl. }
     { exact Hd. }
     rewrite C. apply count_resolve with (f1 := segs y1); auto.
@@ -277,59 +437,170 @@ Section Proofs.
 
   (* nothing is returned twice, whatever was flushed when *)
   Theorem handover_at_most_once pre post r x :
+    kind_of r <> QGroupBy ->
     let y1 := run sys_init pre in
     stage (rds y1 r) = RIdle ->
     let y := run y1 (SnapU r :: post) in
     stage (rds y r) = RDone ->
     count_pair x (result (rds y r)) <= 1.
   Proof.
-    cbv zeta. intros Hidle Hd. destruct x as [s b].
+    cbv zeta. intros Hk Hidle Hd. destruct x as [s b].
     set (y1 := run sys_init pre) in *.
     unfold Handover.run in Hd |- *. cbn [fold_left] in Hd |- *. fold (run (step y1 (SnapU r)) post) in Hd |- *.
+    destruct (first_step y1 r Hidle) as (S1 & S2 & S3).
     set (y' := step y1 (SnapU r)) in *.
-    assert (Hst : stage (rds y' r) = RSnapU /\ snap_u (rds y' r) = snapU (segs y1) /\ segs y' = segs y1).
-    { unfold y'. cbn [Handover.step]. rewrite Hidle. cbn [rds segs]. rewrite updr_same. cbn. auto. }
-    destruct Hst as (S1 & S2 & S3).
-    destruct (after_snapU post y' r (snapU (segs y1)) (segs y1) S1 S2) as (f2 & f3 & A & B & C).
+    destruct (after_snapU post y' r (snapU (segs y1)) (segs y1) S1 S2) as (f2 & f3 & A & B & B' & C).
     { rewrite S3. apply sle_refl. }
     { exact Hd. }
-    rewrite C, resolve_same. unfold resolve_records. rewrite count_app.
+    rewrite C, count_resolve_spec by (auto using NoDup_snapU, NoDup_snapR).
+    unfold resolve_records_spec. rewrite count_app.
     rewrite !count_flat by (try apply NoDup_filter; unfold snapU, snapR; try apply NoDup_filter; apply seq_NoDup).
     rewrite mem_filter_not.
     destruct (mem s (snapU (segs y1))), (mem s (snapR f2)), (Nat.ltb b (nb (f3 s))); cbn; lia.
   Qed.
+
+  (* ---------- the group-by route: correct only while no hand-over step falls into the query ---------- *)
+  Definition is_handover_ev (e : ev) : bool := match e with AddRot _ | DelUnrot _ => true | _ => false end.
+
+  Lemma quiet_phase evs : forall y s, forallb (fun e => negb (is_handover_ev e)) evs = true ->
+    ph (segs y s) <> Absent -> ph (segs (run y evs) s) = ph (segs y s).
+  Proof.
+    induction evs as [|e evs IH]; intros y s Hq Hp; [reflexivity|].
+    cbn [forallb] in Hq. apply Bool.andb_true_iff in Hq as [He Hq].
+    unfold Handover.run. cbn [fold_left]. fold (run (step y e) evs).
+    assert (E : ph (segs (step y e) s) = ph (segs y s)).
+    { destruct e as [t|t| |t|t|q|q|q]; cbn in He; try discriminate; cbn [Handover.step]; try reflexivity.
+      1-2: destruct (ph (segs y t)) eqn:P; cbn [segs]; try reflexivity;
+           destruct (Nat.eq_dec s t) as [->|Hn]; [rewrite upds_same; cbn; congruence|rewrite upds_other by exact Hn; reflexivity].
+      all: destruct (stage (rds y q)); reflexivity. }
+    rewrite IH; [exact E|exact Hq|rewrite E; exact Hp].
+  Qed.
+
+  Lemma rank_inj p q : rank p = rank q -> p = q.
+  Proof. destruct p, q; cbn; intros H; try reflexivity; discriminate. Qed.
+
+  Theorem groupby_exactly_once_guarded pre post r s b :
+    kind_of r = QGroupBy ->
+    let y1 := run sys_init pre in
+    stage (rds y1 r) = RIdle ->
+    s < nseg -> ph (segs y1 s) <> Absent -> b < nb (segs y1 s) ->
+    (* the guard: the segment is not inside its hand-over window when the query begins, and no hand-over
+       step happens while the query runs (flushes, new segments and other queries may) *)
+    ph (segs y1 s) <> Both -> forallb (fun e => negb (is_handover_ev e)) post = true ->
+    let y := run y1 (SnapU r :: post) in
+    stage (rds y r) = RDone ->
+    count_pair (s, b) (result (rds y r)) = 1.
+  Proof.
+    cbv zeta. intros Hk Hidle Hs Hph Hb Hnb Hq Hd.
+    set (y1 := run sys_init pre) in *.
+    unfold Handover.run in Hd |- *. cbn [fold_left] in Hd |- *. fold (run (step y1 (SnapU r)) post) in Hd |- *.
+    destruct (first_step y1 r Hidle) as (S1 & S2 & S3).
+    set (y' := step y1 (SnapU r)) in *.
+    destruct (after_snapU post y' r (snapU (segs y1)) (segs y1) S1 S2) as (f2 & f3 & A & B & B' & C).
+    { rewrite S3. apply sle_refl. }
+    { exact Hd. }
+    assert (Pf : ph (segs (run y' post) s) = ph (segs y1 s)).
+    { rewrite quiet_phase; [rewrite S3; reflexivity|exact Hq|rewrite S3; exact Hph]. }
+    destruct (A s) as [A1 A2]. destruct (B s) as [B1 B2]. destruct (B' s) as [C1 C2]. rewrite Pf in C1.
+    assert (P2 : ph (f2 s) = ph (segs y1 s)) by (apply rank_inj; lia).
+    assert (P3 : ph (f3 s) = ph (segs y1 s)) by (apply rank_inj; lia).
+    rewrite C. unfold resolve, resolve_kind. rewrite Hk. unfold resolve_groupby.
+    rewrite count_app, !count_flat by (first [apply NoDup_snapR | apply NoDup_filter, NoDup_snapU]).
+    rewrite (mem_filter_gen (fun t => in_unrot (f3 t))), mem_snapU, mem_snapR.
+    replace (Nat.ltb s nseg) with true by (symmetry; apply Nat.ltb_lt; exact Hs). cbn [andb].
+    replace (Nat.ltb b (nb (f3 s))) with true by (symmetry; apply Nat.ltb_lt; lia).
+    unfold in_unrot, in_rot. rewrite P2, P3.
+    destruct (ph (segs y1 s)); try congruence; reflexivity.
+  Qed.
 End Proofs.
+
+(* the any-order searcher of the code: one batch, groups of GOMAXPROCS = P blocks (any P, also 0) *)
+Corollary handover_exactly_once_gomaxprocs nseg P kind_of pre post r s b :
+  kind_of r <> QGroupBy ->
+  let y1 := Handover.run nseg true true one_batch (chunks P) kind_of sys_init pre in
+  stage (rds y1 r) = RIdle ->
+  s < nseg -> ph (segs y1 s) <> Absent -> b < nb (segs y1 s) ->
+  let y := Handover.run nseg true true one_batch (chunks P) kind_of y1 (SnapU r :: post) in
+  stage (rds y r) = RDone ->
+  count_pair (s, b) (result (rds y r)) = 1.
+Proof. apply handover_exactly_once; [exact one_batch_covers|apply chunks_keeps]. Qed.
 
 (* Before fix 08e84b8 the statistics path merged a segment that was in both snapshots twice. *)
 Theorem stats_double_count_refuted :
-  exists evs, let y := Handover.run 1 false (fun _ => true) sys_init evs in
+  exists evs, let y := Handover.run 1 false true one_batch (chunks 16) (fun _ => QStats) sys_init evs in
     stage (rds y 0) = RDone /\ count_pair (0, 0) (result (rds y 0)) = 2.
 Proof.
   exists [Create 0; Flush 0; Noop; AddRot 0; SnapU 0; SnapR 0; DelUnrot 0; Resolve 0].
   vm_compute. split; reflexivity.
 Qed.
 
+(* A getFilteredBlocks that skips what EARLIER batches handed out but records its own batch only after the
+   loop: a query planned inside the hand-over window of a segment with 2 blocks, any-order searcher with
+   groups of 2 blocks, returns both blocks twice; with groups of 4 (or the time-ordered searcher, which
+   fetches the two copies of a block together) the block map of the group hides it; outside the window,
+   and with the marking inside the loop, every block is returned once. *)
+Definition window_plan : list ev := [Create 0; Flush 0; Flush 0; Noop; AddRot 0; SnapU 0; SnapR 0; Resolve 0].
+Theorem two_pass_filter_refuted :
+  let ans ib P evs b := count_pair (0, b) (result (rds (Handover.run 1 true ib one_batch (chunks P) (fun _ => QRecords) sys_init evs) 0)) in
+  (ans false 2 window_plan 0 = 2 /\ ans false 2 window_plan 1 = 2) /\
+  (ans false 4 window_plan 0 = 1 /\ ans false 4 window_plan 1 = 1) /\
+  (ans true 2 window_plan 0 = 1 /\ ans true 2 window_plan 1 = 1) /\
+  (ans false 2 [Create 0; Flush 0; Flush 0; SnapU 0; SnapR 0; Resolve 0] 0 = 1 /\
+   ans false 2 [Create 0; Flush 0; Flush 0; Noop; AddRot 0; DelUnrot 0; SnapU 0; SnapR 0; Resolve 0] 0 = 1).
+Proof. vm_compute. repeat split; reflexivity. Qed.
+
+(* the same for two getBlocks batches: the second copy arriving in a LATER batch is skipped by both variants *)
+Example two_pass_filter_across_batches :
+  searcher_filter false [] [[(0,0); (0,1)]; [(0,0); (0,1)]] = [(0,0); (0,1)] /\
+  searcher_filter false [] [[(0,0); (0,1); (0,0); (0,1)]] = [(0,0); (0,1); (0,0); (0,1)] /\
+  searcher_filter true [] [[(0,0); (0,1); (0,0); (0,1)]] = [(0,0); (0,1)].
+Proof. vm_compute. repeat split; reflexivity. Qed.
+
+(* The group-by route (first command `stats ... by ...`) of the code as it is violates the property:
+   (1) planned before the segment enters the rotated metadata, read after it left the unrotated info:
+       the segment's events are missing; (2) planned and read inside the hand-over window: twice. *)
+Theorem groupby_lost_refuted :
+  exists evs, let y := Handover.run 1 true true one_batch (chunks 16) (fun _ => QGroupBy) sys_init evs in
+    stage (rds y 0) = RDone /\ count_pair (0, 0) (result (rds y 0)) = 0.
+Proof.
+  exists [Create 0; Flush 0; Noop; SnapU 0; SnapR 0; AddRot 0; DelUnrot 0; Noop; Resolve 0].
+  vm_compute. split; reflexivity.
+Qed.
+Theorem groupby_doubled_refuted :
+  exists evs, let y := Handover.run 1 true true one_batch (chunks 16) (fun _ => QGroupBy) sys_init evs in
+    stage (rds y 0) = RDone /\ count_pair (0, 0) (result (rds y 0)) = 2.
+Proof.
+  exists [Create 0; Flush 0; Noop; SnapU 0; AddRot 0; SnapR 0; Resolve 0; DelUnrot 0; Noop].
+  vm_compute. split; reflexivity.
+Qed.
+(* the guard of groupby_exactly_once_guarded is satisfiable: a query over an open and a rotated segment *)
+Example groupby_guard_nonvacuous :
+  let y := Handover.run 2 true true one_batch (chunks 16) (fun _ => QGroupBy) sys_init
+             [Create 0; Flush 0; AddRot 0; DelUnrot 0; Create 1; Flush 1; SnapU 0; Flush 1; SnapR 0; Resolve 0] in
+  stage (rds y 0) = RDone /\ count_pair (0, 0) (result (rds y 0)) = 1 /\ count_pair (1, 0) (result (rds y 0)) = 1.
+Proof. vm_compute. repeat split; reflexivity. Qed.
+
 (* Queries never change what is stored: the segment table after any interleaving equals the
    one after the writers' events alone (quiescent state = sequential execution of the ingests). *)
 Definition is_writer_ev (e : ev) : bool :=
   match e with SnapU _ | SnapR _ | Resolve _ => false | _ => true end.
 
-Theorem readers_transparent nseg sd is_stats evs : forall y s,
-  segs (Handover.run nseg sd is_stats y evs) s
-  = segs (Handover.run nseg sd is_stats y (filter is_writer_ev evs)) s.
+Theorem readers_transparent nseg sd ib bt gp kind_of evs : forall y s,
+  segs (Handover.run nseg sd ib bt gp kind_of y evs) s
+  = segs (Handover.run nseg sd ib bt gp kind_of y (filter is_writer_ev evs)) s.
 Proof.
   induction evs as [|e evs IH]; intros y s; [reflexivity|].
   cbn [filter]. destruct (is_writer_ev e) eqn:E.
   - unfold Handover.run. cbn [fold_left]. apply IH.
-  - unfold Handover.run at 1. cbn [fold_left]. fold (Handover.run nseg sd is_stats (Handover.step nseg sd is_stats y e) evs).
+  - unfold Handover.run at 1. cbn [fold_left]. fold (Handover.run nseg sd ib bt gp kind_of (Handover.step nseg sd ib bt gp kind_of y e) evs).
     rewrite IH.
-    assert (H : forall t, segs (Handover.step nseg sd is_stats y e) t = segs y t).
+    assert (H : forall t, segs (Handover.step nseg sd ib bt gp kind_of y e) t = segs y t).
     { intro t. destruct e as [q|q| |q|q|r|r|r]; cbn in E; try discriminate; cbn [Handover.step];
       destruct (stage (rds y r)); reflexivity. }
     (* runs from states with pointwise equal segment tables and arbitrary reader tables agree on segs
        for writer-only event lists *)
     assert (G : forall l y1 y2, (forall t, segs y1 t = segs y2 t) -> Forall (fun e => is_writer_ev e = true) l ->
-                forall t, segs (Handover.run nseg sd is_stats y1 l) t = segs (Handover.run nseg sd is_stats y2 l) t).
+                forall t, segs (Handover.run nseg sd ib bt gp kind_of y1 l) t = segs (Handover.run nseg sd ib bt gp kind_of y2 l) t).
     { induction l as [|a l IHl]; intros y1 y2 Hq Hall t; [apply Hq|].
       inversion Hall as [|? ? Ha Hl]; subst. unfold Handover.run. cbn [fold_left]. apply IHl; auto.
       intro u. destruct a as [q|q| |q|q|r|r|r]; cbn in Ha; try discriminate; cbn [Handover.step]; try apply Hq.
